@@ -4,9 +4,9 @@ PROPS = {
     "C14": {
         "lean": ["C14"],
         "required": ["C14.c14_u32_v4_src", "C14.c14_u32_v4_dst", "C14.c14_u32_v6_src", "C14.c14_gateway_third_from_last",
-                     "C14.c14_gateway_none_iff", "C14.c14_table_injective", "C14.c14_veth_fits", "C14.c14_veth_preimage_injective"],
+                     "C14.c14_gateway_none_iff", "C14.c14_table_injective", "C14.c14_veth_fits", "C14.c14_veth_preimage_injective", "C14.c14_kept_filter_exact"],
         "rule": "structured generator: every IPv4 prefix length 0..32 x boundary and random addresses (both 4- and 16-byte "
-                "net.IP forms) for U32IPv4Src/dstIPRule/DeriveGatewayIP; every IPv6 length 0..128 x random/zeroed words; "
+                "net.IP forms) for U32IPv4Src/dstIPRule/DeriveGatewayIP; per address and length one op net.keep4: a filter found installed on the ENI for another CIDR (the same network address with another prefix length, the same CIDR, a neighbour, a random one; built the way setupFilters builds its own, actions included) is shown to the rule's real isMatch (hook VerifDstRuleKeeps) - kept or replaced is compared with the model's keepsInstalled, and a kept filter's key is probed against the CIDR it is kept for (monitor C14/dst4/kept-filter-not-exact); every IPv6 length 0..128 x random/zeroed words; "
                 "random link indices; random (prefix, namespace, name, ifname) incl. multi-block hash inputs. Each case is one "
                 "call on the real function, compared with the Lean model's output; an independent Go packet evaluator / big-int "
                 "reference is the property monitor. non-trivial = prefix strictly between 0 and full length (classifiers), "
